@@ -1787,3 +1787,18 @@ func (w *World) deepLeaves(v ssa.Value, stop func(*ssa.Function) bool, depth int
 	walk(v, nil, depth)
 	return leaves, complete
 }
+
+// partOf: fn is root itself or a single-call-site helper (transitively) of it.
+func (w *World) partOf(fn, root *ssa.Function) bool {
+	for n := 0; n < 8 && fn != nil; n++ {
+		if fn == root {
+			return true
+		}
+		site := w.singleSiteCI(fn)
+		if site == nil {
+			return false
+		}
+		fn = site.Parent()
+	}
+	return false
+}
